@@ -289,6 +289,20 @@ pub fn strategy(_t: Tier) -> BoxedStrategy<Case> {
         .boxed()
 }
 
+/// records two 64-bit digests of a frame in a process-wide set; false if the same frame (bit for bit)
+/// was recorded before
+fn note_frame(f: &[f64]) -> bool {
+    let (mut d1, mut d2) = (0x243f_6a88_85a3_08d3u64 ^ f.len() as u64, 0x1319_8a2e_0370_7344u64);
+    for x in f {
+        let w = x.to_bits();
+        d1 = splitmix(d1 ^ w);
+        d2 = splitmix(d2.rotate_left(7) ^ w ^ 0x9e37);
+    }
+    static EARLIER: std::sync::Mutex<Option<std::collections::HashSet<(u64, u64)>>> = std::sync::Mutex::new(None);
+    let mut g = EARLIER.lock().unwrap_or_else(|e| e.into_inner());
+    g.get_or_insert_with(Default::default).insert((d1, d2))
+}
+
 fn zcheck(name: &str, val: f64, expect: f64, sd: f64, p: &mut Probe, ctx: &str) -> Check {
     let z = (val - expect).abs() / sd;
     p.metric("z_max", z);
@@ -523,7 +537,12 @@ pub fn check(c: &Case, p: &mut Probe) -> Check {
             // independent noise between frames, workers and points: no two recorded frames may be
             // bit-identical (a shared or re-seeded generator would repeat whole frames)
             let key: Vec<u64> = f.iter().map(|x| x.to_bits()).collect();
+            // ... nor may a frame repeat one that an earlier simulation of this process produced (a
+            // generator seeded once per process would replay): two 64-bit digests of every frame are
+            // kept for the lifetime of the process
+            let fresh = note_frame(f);
             ensure!(seen_frames.insert(key), "repeated-frame", "two frames handed to the decoder are bit-identical: messages/noise are not drawn independently per frame and worker {ctx}");
+            ensure!(fresh, "repeated-frame-across-runs", "a frame handed to the decoder is bit-identical to a frame of an earlier simulation run in this process: messages/noise are replayed from run to run {ctx}");
         }
         p.metric("nonconverged_inversions", nonconv as f64);
         ensure!(nonconv * 1000 <= cnt.max(1), "inversion", "{nonconv} of {cnt} 8PSK LLR triples could not be inverted to a received sample {ctx}");
@@ -545,6 +564,19 @@ pub fn check(c: &Case, p: &mut Probe) -> Check {
                 zcheck("re/im correlation", cross / nn / (sigma_e * sigma_e), 0.0, 1.0 / nn.sqrt(), p, &ctx)?;
             }
         }
+    }
+    // one case in eight: the same configuration is simulated a second time in this process, by a new
+    // BerTest object; none of its frames may repeat a frame of the first run (or of any earlier run)
+    if (c.h.ones.len() + n) % 8 == 3 {
+        let state = ProbeState { flips: bch as usize + 1, expected: sigmas.iter().map(|&s| expected_scale(c.psk8, s)).collect(), cap: 48, kept: vec![Vec::new(); npts], seen: vec![0; npts], stray: Vec::new(), stray_seen: 0 };
+        *frames.lock().unwrap() = state;
+        let _ = guarded(run).map_err(|e| Fail::new("panic", format!("second BER run of the same configuration panicked: {e} {ctx0}")))?.map_err(|e| Fail::new("run-error", format!("second BER run of the same configuration failed: {e} {ctx0}")))?;
+        let st2 = std::mem::take(&mut *frames.lock().unwrap());
+        for f in st2.kept.iter().flatten().chain(st2.stray.iter()) {
+            ensure!(note_frame(f), "repeated-frame-across-runs", "a frame of a second simulation of the same configuration is bit-identical to a frame of an earlier simulation in this process: messages/noise are replayed from run to run {ctx0}");
+            p.inner += 1;
+        }
+        p.class("same-configuration-simulated-twice");
     }
     let has_p = c.pattern.as_ref().is_some_and(|v| v.iter().any(|&b| !b));
     let has_i = c.interleaver.is_some_and(|x| x.unsigned_abs() > 1);
@@ -591,12 +623,82 @@ fn long_cases(_t: Tier) -> Vec<Case> {
     ]
 }
 
+/// a noise-free channel (Eb/N0 = +infinity, a legal f32): BPSK LLRs are then infinite, and they
+/// still carry the signs of the codeword (an infinite LLR is a certain bit, not an undefined one)
+fn noiseless_cases(_t: Tier) -> Vec<u8> {
+    vec![0, 1, 2, 3]
+}
+
+fn check_noiseless(which: &u8, p: &mut Probe) -> Check {
+    let (r, k) = (4usize, 8usize);
+    let n = r + k;
+    let mut h = SparseMatrix::new(r, n);
+    let mut rows: Vec<Vec<usize>> = vec![Vec::new(); r];
+    for j in 0..k {
+        for t in [0usize, 1, 3] {
+            let i = (j + t + (*which as usize)) % r;
+            if !rows[i].contains(&j) {
+                h.insert(i, j);
+                rows[i].push(j);
+            }
+        }
+    }
+    h.insert(0, k);
+    for i in 1..r {
+        h.insert(i, k + i);
+        h.insert(i, k + i - 1);
+    }
+    let pattern: Option<Vec<bool>> = if which % 2 == 1 { Some(vec![true, true, true, true, false, true]) } else { None };
+    let interleaver: Option<isize> = match which {
+        2 => Some(3),
+        3 => Some(-2),
+        _ => None,
+    };
+    let state = ProbeState { flips: 1, expected: vec![f64::INFINITY], cap: 64, kept: vec![Vec::new()], seen: vec![0], stray: Vec::new(), stray_seen: 0 };
+    let frames: Frames = Arc::new(Mutex::new(state));
+    let probe = ProbeFactory(frames.clone());
+    let run = || -> Result<(), String> {
+        let b = BerTest::<Bpsk, _>::new(h.clone(), probe.clone(), pattern.as_deref(), interleaver, 6, 5, &[f32::INFINITY], None, 0).map_err(|e| e.to_string())?;
+        b.run().map(|_| ()).map_err(|e| e.to_string())
+    };
+    guarded(run).map_err(|e| Fail::new("panic", format!("BER run at Eb/N0 = +inf panicked: {e}")))?.map_err(|e| Fail::new("run-error", format!("BER run at Eb/N0 = +inf failed: {e}")))?;
+    let st = std::mem::take(&mut *frames.lock().unwrap());
+    let got: Vec<&Vec<f64>> = st.kept.iter().flatten().collect();
+    ensure!(!got.is_empty(), "no-frames", "no frame reached the decoder at Eb/N0 = +inf");
+    let punct: Vec<bool> = match &pattern {
+        None => vec![false; n],
+        Some(pt) => (0..n).map(|i| !pt[i / (n / pt.len())]).collect(),
+    };
+    for f in got {
+        ensure!(f.len() == n, "frame-length", "decoder received {} LLRs, codeword length is {n} (noise-free channel)", f.len());
+        let bits: Vec<u8> = f.iter().map(|&x| u8::from(x <= 0.0)).collect();
+        let mut acc = 0u8;
+        for i in 0..n {
+            if punct[i] {
+                ensure!(f[i].to_bits() == 0, "punctured-not-zero", "noise-free channel: LLR at punctured position {i} is {:?}, not exactly +0.0", f[i]);
+            } else {
+                ensure!(f[i] != 0.0 && !f[i].is_nan(), "unpunctured-degenerate", "noise-free channel: the LLR at transmitted position {i} is {:?}: it carries no sign (frame {f:?})", f[i]);
+            }
+        }
+        for i in 0..r {
+            acc ^= rows[i].iter().fold(0u8, |a, &j| a ^ bits[j]);
+            if !punct[k + i] {
+                ensure!(bits[k + i] == acc, "not-systematic-codeword", "noise-free channel: parity position {} has sign bit {}, the encoder gives {acc} (frame {f:?})", k + i, bits[k + i]);
+            }
+        }
+        p.inner += 1;
+    }
+    p.nontrivial();
+    p.class_if(pattern.is_some(), "punctured");
+    Ok(())
+}
+
 pub fn property() -> Property {
     Property {
         id: "C12",
         subs: vec![Box::new(Sub {
             name: "llr-frames",
-            rule: "configurations: systematic H by construction ([H0 | staircase] or [H0 | unit lower triangular], 2 <= r <= 12, n = p x bs with pattern length p in 1..=12 and bs a multiple of 3; in a fifth of the cases neither p nor bs is a multiple of 3, and with 8PSK the pattern then keeps 3, 6 or 9 blocks, so that the transmitted length is a multiple of 3 although the codeword length is not), puncturing pattern none / AR4JA-like 1,1,1,1,0 / random with >= 1 true (may puncture information blocks), interleaver none or +-c with c a divisor of the transmitted length, BPSK or 8PSK, Eb/N0 chosen for an expected sigma of 0.08-0.13 (BPSK) or 0.025-0.048 (8PSK); one Eb/N0 point, or two or three in any order whose sigmas halve from level to level (frames are attributed to a point by their mean |LLR|, which differs by a factor >= 4 between points; a point whose statistics report frames although none of its scale reached the decoder is a violation, as is a majority of frames more than a factor 2 away from every point's scale), through BerTest::new or BerTestBuilder, with the outer-code accounting threshold 0 (three fifths), 1 or 2; a probe DecoderFactory records every LLR vector and answers Err with one systematic bit flipped. Oracles per frame: length n; punctured positions bit-exactly +0.0, all others finite and non-zero; signs equal the own systematic re-encoding of the first k sign bits (or, when information blocks are punctured, extend to a codeword by an own GF(2) solve); reported k, N_cw, N, rate. no two recorded frames bit-identical (independence across frames and workers). Noise: received samples recovered from the LLRs (BPSK exactly, 8PSK by Gauss-Newton inversion of the own exact LLR function) with the expected sigma computed from (k, N after puncturing, bits per symbol, Eb/N0); mean, variance (Wilson-Hilferty), <w,s> scale statistic, lag-1 and re/im correlation within +-7 sigma, per Eb/N0 point, once >= 3500 samples were collected for it. Non-trivial = puncturing and interleaving both present, or 8PSK with either; inner = frames examined",
+            rule: "configurations: systematic H by construction ([H0 | staircase] or [H0 | unit lower triangular], 2 <= r <= 12, n = p x bs with pattern length p in 1..=12 and bs a multiple of 3; in a fifth of the cases neither p nor bs is a multiple of 3, and with 8PSK the pattern then keeps 3, 6 or 9 blocks, so that the transmitted length is a multiple of 3 although the codeword length is not), puncturing pattern none / AR4JA-like 1,1,1,1,0 / random with >= 1 true (may puncture information blocks), interleaver none or +-c with c a divisor of the transmitted length, BPSK or 8PSK, Eb/N0 chosen for an expected sigma of 0.08-0.13 (BPSK) or 0.025-0.048 (8PSK); one Eb/N0 point, or two or three in any order whose sigmas halve from level to level (frames are attributed to a point by their mean |LLR|, which differs by a factor >= 4 between points; a point whose statistics report frames although none of its scale reached the decoder is a violation, as is a majority of frames more than a factor 2 away from every point's scale), through BerTest::new or BerTestBuilder, with the outer-code accounting threshold 0 (three fifths), 1 or 2; a probe DecoderFactory records every LLR vector and answers Err with one systematic bit flipped. Oracles per frame: length n; punctured positions bit-exactly +0.0, all others finite and non-zero; signs equal the own systematic re-encoding of the first k sign bits (or, when information blocks are punctured, extend to a codeword by an own GF(2) solve); reported k, N_cw, N, rate. no two recorded frames bit-identical (independence across frames and workers), nor identical to a frame of any earlier simulation of the same process (digests kept process-wide). Noise: received samples recovered from the LLRs (BPSK exactly, 8PSK by Gauss-Newton inversion of the own exact LLR function) with the expected sigma computed from (k, N after puncturing, bits per symbol, Eb/N0); mean, variance (Wilson-Hilferty), <w,s> scale statistic, lag-1 and re/im correlation within +-7 sigma, per Eb/N0 point, once >= 3500 samples were collected for it. Non-trivial = puncturing and interleaving both present, or 8PSK with either; inner = frames examined",
             cases: |t| t.pick(500, 20_000),
             strategy,
             check,
@@ -607,6 +709,13 @@ pub fn property() -> Property {
             rule: "four configurations whose transmitted frame is longer than 2^16 bits (staircase codes of 66 000, 66 003 and 84 000 bits with a weight-3 message part; interleaver 3 / -21 / 4 / -8 columns; BPSK and 8PSK; a 7-block pattern that removes a parity block; BerTest::new and BerTestBuilder; one case with two Eb/N0 points): the same per-frame oracles (length, exact zeros at the punctured positions, signs = own accumulator re-encoding of the first k sign bits, no repeated frame) and the same noise statistics",
             cases: long_cases,
             check,
+            exhaustive: false,
+        }),
+        Box::new(EnumSub {
+            name: "noise-free",
+            rule: "BPSK at Eb/N0 = +infinity (sigma 0) on a 4 x 12 staircase code, with and without a pattern that removes a parity block, with and without an interleaver (3 / -2 columns): frames of codeword length, exact zeros at the punctured positions, every other LLR non-zero and not NaN (infinite is what a certain bit looks like), signs = own accumulator re-encoding of the first k sign bits",
+            cases: noiseless_cases,
+            check: check_noiseless,
             exhaustive: false,
         })],
         assumptions: vec![
